@@ -217,6 +217,11 @@ func (g Gateway) Set(ctx context.Context, in *hydrapb.SetRequest) (*hydrapb.SetR
 			// return with grpc error message
 			return nil, status.Error(codes.InvalidArgument, fmt.Sprintf("KeyValues cannot be empty for the swamp: %s", swampRequest.GetSwampName()))
 		}
+		for _, keyValue := range swampRequest.GetKeyValues() {
+			if err := checkTreasureKey(keyValue.GetKey()); err != nil {
+				return nil, err
+			}
+		}
 	}
 
 	// try to summon the swamp
@@ -1830,6 +1835,12 @@ func (g Gateway) Uint32SlicePush(ctx context.Context, in *hydrapb.AddToUint32Sli
 		return nil, err
 	}
 
+	for _, pair := range in.KeySlicePairs {
+		if err := checkTreasureKey(pair.GetKey()); err != nil {
+			return nil, err
+		}
+	}
+
 	// get the hydra interface
 	hydraInterface := g.ZeusInterface.GetHydra()
 
@@ -2953,6 +2964,21 @@ func handlePanic() {
 		// log the panic with the error and stack trace
 		slog.Error("grpc gateway panic", "error", r, "stack", string(stackTrace))
 	}
+}
+
+// maxKeyLength is the longest treasure key the storage engine can encode (16-bit length field).
+const maxKeyLength = 65535
+
+// checkTreasureKey rejects keys the storage engine cannot store: a write under such a key would be
+// acknowledged, live in memory only and be gone after the next reload of the swamp.
+func checkTreasureKey(key string) error {
+	if key == "" {
+		return status.Error(codes.InvalidArgument, "Key cannot be empty")
+	}
+	if len(key) > maxKeyLength {
+		return status.Error(codes.InvalidArgument, fmt.Sprintf("Key is longer than %d bytes", maxKeyLength))
+	}
+	return nil
 }
 
 // checkSwampName check if the swamp name is valid and exist or not.
